@@ -91,6 +91,10 @@ func (ex *Exec) callBuiltin(fr *frame, name string, args []Value, c *ssa.CallCom
 		return nil
 	case "close":
 		ch := args[0].(*ChanVal)
+		if ex.curThread != nil {
+			ex.tClose(ch)
+			return nil
+		}
 		if ch == nil {
 			ex.goPanicf("close of nil channel")
 		}
@@ -498,6 +502,10 @@ func (ex *Exec) selectOp(fr *frame, in *ssa.Select) Value {
 }
 
 func (ex *Exec) goStmt(fr *frame, in *ssa.Go) {
+	if ex.Opt.Threads || ex.curThread != nil || len(ex.threads) > 0 {
+		ex.goStmtThread(fr, in)
+		return
+	}
 	if ex.P.goHook != nil {
 		ex.P.goHook(ex, fr, in)
 		return
